@@ -127,6 +127,17 @@ theorem den_poly2laurent_of_dropped (thr : ℚ) (ps l : List ℚ)
     denL l (-(l.length : ℤ) + 1) = Polynomial.aeval (cosW : ℚ[T;T⁻¹]) (toPoly ps) :=
   QSP.den_poly2laurent_of_dropped thr ps l h hdrop
 
+/-- the converter as the code runs it: NumPy's `poly2cheb` first trims trailing zero
+    coefficients (`trimZeros`), so the result lives on powers `-d..d` with `d` the true degree -/
+theorem den_poly2laurentNp (thr : ℚ) (ps l : List ℚ) (h : poly2laurentNp thr ps = .ok l)
+    (hdrop : ∀ c ∈ (if thr < maxAbs (odds (poly2cheb false (trimZeros ps)))
+      then evens (poly2cheb false (trimZeros ps)) else odds (poly2cheb false (trimZeros ps))), c = 0) :
+    denL l (-(l.length : ℤ) + 1) = Polynomial.aeval (cosW : ℚ[T;T⁻¹]) (toPoly ps) :=
+  QSP.den_poly2laurentNp thr ps l h hdrop
+
+example : poly2laurentNp (1 / 100000000) [0, 0, 0, 1, 0, 0] = .ok [1 / 8, 3 / 8, 3 / 8, 1 / 8] := by
+  decide +kernel
+
 /-- both parities above the threshold: refused -/
 theorem poly2laurent_refuses (thr : ℚ) (ps : List ℚ)
     (h1 : maxAbs (evens (poly2cheb false ps)) > thr)
